@@ -10,6 +10,14 @@
 namespace fillnew {
 static int g_fill = -1; // -1: leave memory as malloc returned it
 inline void set(int byte) { g_fill = byte; }
+
+/// Fill the stack region that the next calls will use with a byte: the stack analogue of the heap fill, so
+/// that an uninitialised member of an object that lives on the stack reads a planted value.
+__attribute__((noinline)) inline void poisonStack(int byte) {
+  volatile char buf[192 * 1024];
+  for (size_t i = 0; i < sizeof buf; i++) buf[i] = (char)byte;
+  __asm__ volatile("" ::: "memory");
+}
 } // namespace fillnew
 
 void *operator new(std::size_t n) {
